@@ -16,15 +16,38 @@ VARIABLE parts
 \* DTD occurrence indicators as (min, max)
 DOccs == {<<1, 1>>, <<0, 1>>, <<0, U>>, <<1, U>>}
 DItemA == {El("a", tp, o[1], o[2]) : tp \in {"string", "EMPTY"}, o \in DOccs}
-DItemB == {El("b", tp, o[1], o[2]) : tp \in {"string", "Kid"}, o \in DOccs}
+\* b alone, or a group (b, e?) / (b | e) with an occurrence indicator of its own
+DItemB == {El("b", tp, o[1], o[2]) : tp \in {"string", "Kid"}, o \in DOccs} \cup
+          {Grp(k, o[1], o[2], <<El("b", "string", 1, 1), El("e", "string", m, 1)>>) : k \in {"seq", "choice"}, o \in DOccs, m \in {0, 1}}
+\* nothing, a group (c, d?) / (c | d), or a group whose members are themselves sequence groups: ((c, d) | (f, g?))
 DItemC == {[k |-> "none"]} \cup {Grp(k, o[1], o[2], <<El("c", "string", 1, 1), El("d", "string", m, 1)>>) :
-                                   k \in {"seq", "choice"}, o \in DOccs, m \in {0, 1}}
+                                   k \in {"seq", "choice"}, o \in DOccs, m \in {0, 1}} \cup
+          {Grp(k, o[1], o[2], << Grp("seq", 1, 1, <<El("c", "string", 1, 1), El("d", "string", 1, 1)>>),
+                                 Grp("seq", 1, 1, <<El("f", "string", 1, 1), El("g", "string", m, 1)>>) >>) :
+                                   k \in {"seq", "choice"}, o \in {<<1, 1>>, <<0, 1>>, <<1, U>>}, m \in {0, 1}}
 Slots == << {"seq", "choice"}, DOccs, DItemA, DItemB, DItemC, 1..7, {"model", "mixed", "any"}, 0..MaxDocIdx >>
 NSlots == Len(Slots)
 Init == parts = <<>>
 Next == Len(parts) < NSlots /\ \E c \in Slots[Len(parts) + 1] : parts' = Append(parts, c)
 Spec == Init /\ [][Next]_parts
 Complete == Len(parts) = NSlots
+
+\* A fixed corpus of shapes that are replayed in EVERY run (reproducers of fixed defects and shapes that random
+\* walks of the slot space reach rarely): the first seven slots are given, only the document index varies.
+Seq2(k, o, m) == Grp(k, o[1], o[2], <<El("c", "string", 1, 1), El("d", "string", m, 1)>>)
+BGrp(k, o, m) == Grp(k, o[1], o[2], <<El("b", "string", 1, 1), El("e", "string", m, 1)>>)
+CC(k, o, m) == Grp(k, o[1], o[2], << Grp("seq", 1, 1, <<El("c", "string", 1, 1), El("d", "string", 1, 1)>>),
+                                      Grp("seq", 1, 1, <<El("f", "string", 1, 1), El("g", "string", m, 1)>>) >>)
+Corpus == {
+  <<"seq", <<0, 1>>, El("a", "string", 0, U), El("b", "string", 1, 1), Seq2("seq", <<0, U>>, 0), 1, "model">>,        \* F24
+  <<"choice", <<1, 1>>, El("a", "string", 0, U), El("b", "string", 0, 1), [k |-> "none"], 1, "model">>,               \* F25
+  <<"choice", <<1, 1>>, El("a", "string", 0, 1), El("b", "string", 1, 1), Seq2("seq", <<1, 1>>, 0), 3, "model">>,      \* F27
+  <<"choice", <<1, 1>>, El("a", "string", 1, 1), BGrp("seq", <<1, 1>>, 1), Seq2("seq", <<1, 1>>, 1), 1, "model">>,     \* two sequence branches
+  <<"seq", <<1, 1>>, El("a", "string", 1, 1), El("b", "string", 0, 1), CC("choice", <<1, 1>>, 1), 3, "model">>,       \* (a, b?, ((c,d)|(f,g)))
+  <<"seq", <<1, 1>>, El("a", "string", 1, 1), El("b", "string", 0, 1), CC("choice", <<1, U>>, 0), 1, "model">>,
+  <<"choice", <<1, U>>, El("a", "string", 1, 1), BGrp("choice", <<1, 1>>, 1), CC("seq", <<0, 1>>, 1), 1, "model">>,
+  <<"seq", <<1, 1>>, El("a", "EMPTY", 0, 1), BGrp("seq", <<0, U>>, 0), Seq2("choice", <<1, U>>, 1), 7, "model">> }
+InitCorpus == \E c \in Corpus, i \in 0..MaxDocIdx : parts = Append(c, i)
 
 Root == Grp(parts[1], parts[2][1], parts[2][2], <<parts[3], parts[4]>> \o (IF parts[5].k = "none" THEN <<>> ELSE <<parts[5]>>))
 \* attribute list of the root: [name, tp, mode, value]   mode: REQUIRED | IMPLIED | FIXED | DEFAULT
